@@ -72,6 +72,9 @@ PLAIN = [
     ("auto_home-comment", lambda g: g.auto_home(comment="go home")),
     ("auto_home-x-comment", lambda g: g.auto_home(x=0, comment="home x")),
     ("probe-comment", lambda g: g.probe("towards", z=-1.5, comment="touch off")),
+    # extra positional values of comment() belong to the comment as well
+    ("comment-values", lambda g: g.comment("Position X:", 10.5, "Y:", 20)),
+    ("comment-values-linebreak", lambda g: g.comment("note", "first\nG1 X99", 7)),
     ("move-comment-empty", lambda g: g.move(x=1.5, comment="")),
     ("auto_home-comment-empty", lambda g: g.auto_home(comment="")),
     ("set_axis-comment-empty", lambda g: g.set_axis(x=0, comment="")),
